@@ -18,8 +18,10 @@ R32b  RS-state (``sa/state.py``): every cell of process-lifetime state that has
       on something that is not part of the key).
 R32c  functions of core/linter, core/rules and core/config do not mutate objects
       they received from their caller: a mutation whose access path starts at a
-      parameter (or a plain alias of it, or an element obtained by iterating
-      over it) is a row of ``REVIEWED_ARG_MUTATIONS``.
+      parameter (``p``, ``p.a``; through plain aliases ``x = p.a``; ``p.a[*]`` for an
+      element obtained by iterating over it) is a row of ``REVIEWED_ARG_MUTATIONS``
+      — keyed by function and access path, and listing the operations reviewed, so
+      a new operation on a reviewed parameter is reported as well.
 
 Accepted idioms: mutation of ``self`` / ``cls`` state is the object's own business
 (class-level state reached through ``self`` is R32b's); a local that is rebound
@@ -38,14 +40,13 @@ from ..callgraph import CallGraph, Edge, FuncInfo
 from ..cfg import cfg_of, origins
 from ..flow import bind_args, is_method_bound
 from ..index import AnalysisError, FuncNode, last_attr, norm, short, walk_local
-from ..iohelpers import all_calls, param_of, write_kind, write_target
+from ..iohelpers import all_calls, param_of, write_kind
 from ..report import construct_of
 from ..state import _param_names, chain_of, inventory, mutation_shapes
 
 CLI = "src/sqlfluff/cli/commands.py"
 API = "src/sqlfluff/api/simple.py"
 LINTER = "src/sqlfluff/core/linter/linter.py"
-LINTED_FILE = "src/sqlfluff/core/linter/linted_file.py"
 
 # (module, function, how the flags are known)
 #   'unknown'  : arguments come from the user (click / API caller): no flag is assumed
@@ -152,23 +153,29 @@ REVIEWED_CACHES = {
     "src/sqlfluff/core/parser/rust_parser.py::RustParser._get_segment_class_by_name": "per parser instance (self is part of the key), keyed by class name; dialect fixed per instance",
 }
 
-# (function, parameter) -> why mutating the caller's object is part of the contract
-REVIEWED_ARG_MUTATIONS = {
-    ("src/sqlfluff/core/linter/linter.py::Linter.allowed_rule_ref_map", "reference_map"): "inserts the three constant keys PRS/LXR/TMP into the pack's map: idempotent, and done before every read of the map in the same call",
-    ("src/sqlfluff/core/linter/linter.py::Linter.lint_parsed", "parsed"): "records the linting time in the timing dict of the ParsedString handed over for this one lint",
-    ("src/sqlfluff/core/linter/fix.py::apply_fixes", "fixes"): "consumes the anchor map the caller built for this one call (compute_anchor_edit_info result)",
-    ("src/sqlfluff/core/linter/linted_file.py::LintedFile._slice_source_file_using_patches", "source_only_slices"): "work list; the only caller passes a list built for the call",
-    ("src/sqlfluff/core/rules/base.py::BaseRule._process_lint_result", "new_lerrs"): "explicit out-list of crawl()",
-    ("src/sqlfluff/core/rules/base.py::BaseRule._process_lint_result", "new_fixes"): "explicit out-list of crawl()",
-    ("src/sqlfluff/core/rules/base.py::BaseRule.discard_unsafe_fixes", "lint_result"): "the result object just returned by the rule's own _eval",
-    ("src/sqlfluff/core/rules/base.py::BaseRule._adjust_anchors_for_fixes", "lint_result"): "the result object just returned by the rule's own _eval",
-    ("src/sqlfluff/core/rules/crawlers.py::SegmentSeekerCrawler.crawl", "context"): "crawler protocol: one RuleContext per crawl, advanced in place",
-    ("src/sqlfluff/core/rules/noqa.py::IgnoreMask._should_ignore_violation_line_range", "ignore_rules"): "marks directives of this file's mask as used",
-    ("src/sqlfluff/core/rules/base.py::RuleMetaclass._populate_code_and_description", "class_dict"): "class creation (import time)",
-    ("src/sqlfluff/core/rules/base.py::RuleMetaclass._populate_docstring", "class_dict"): "class creation (import time)",
-    ("src/sqlfluff/core/rules/base.py::RuleMetaclass.__new__", "class_dict"): "class creation (import time)",
-    ("src/sqlfluff/core/config/file.py::_resolve_paths_in_config", "config"): "called on the freshly parsed dict inside the cached loader, before it is returned",
-    ("src/sqlfluff/core/config/removed.py::validate_config_dict_for_removed", "config"): "called on the freshly parsed / merged dict before it is used (C27 R27c checks no cached dict gets here)",
+# (function, access path from the parameter) -> (why mutating the caller's object is part of the contract, allowed operations)
+#   access path: `p` the object itself, `p.a` an attribute of it, `p[*]` an element obtained by iterating
+_L = "src/sqlfluff/core/linter/"
+_R = "src/sqlfluff/core/rules/"
+_C = "src/sqlfluff/core/config/"
+REVIEWED_ARG_MUTATIONS: Dict[Tuple[str, str], Tuple[str, Tuple[str, ...]]] = {
+    (_L + "linter.py::Linter.allowed_rule_ref_map", "reference_map"): (
+        "inserts the three constant keys PRS/LXR/TMP into the pack's map: idempotent, and done before every read of the map in the same call", ("item-store",)),
+    (_L + "linter.py::Linter.lint_parsed", "parsed.time_dict"): ("records the linting time in the timing dict of the ParsedString handed over for this one lint", ("item-store",)),
+    (_L + "fix.py::apply_fixes", "fixes"): ("consumes the anchor map the caller built for this one call (compute_anchor_edit_info result)", ("call .pop()",)),
+    (_L + "linted_file.py::LintedFile._slice_source_file_using_patches", "source_only_slices"): ("work list; the only caller passes a list built for the call", ("call .pop()",)),
+    (_R + "base.py::BaseRule._process_lint_result", "new_lerrs"): ("explicit out-list of crawl()", ("call .append()",)),
+    (_R + "base.py::BaseRule._process_lint_result", "new_fixes"): ("explicit out-list of crawl()", ("call .extend()",)),
+    (_R + "base.py::BaseRule.discard_unsafe_fixes", "lint_result"): ("the result object just returned by the rule's own _eval", ("attr-store .fixes",)),
+    (_R + "base.py::BaseRule._adjust_anchors_for_fixes", "lint_result.fixes[*]"): ("fixes of the result object just returned by the rule's own _eval", ("attr-store .anchor",)),
+    (_R + "crawlers.py::SegmentSeekerCrawler.crawl", "context"): (
+        "crawler protocol: one RuleContext per crawl, advanced in place", ("attr-store .segment_idx", "attr-store .parent_stack", "attr-store .segment", "attr-store .raw_stack")),
+    (_R + "noqa.py::IgnoreMask._should_ignore_violation_line_range", "ignore_rules[*]"): ("marks directives of this file's mask as used", ("attr-store .used",)),
+    (_R + "base.py::RuleMetaclass._populate_code_and_description", "class_dict"): ("class creation (import time)", ("item-store",)),
+    (_R + "base.py::RuleMetaclass._populate_docstring", "class_dict"): ("class creation (import time)", ("item-store",)),
+    (_R + "base.py::RuleMetaclass.__new__", "class_dict"): ("class creation (import time)", ("item-store",)),
+    (_C + "file.py::_resolve_paths_in_config", "config"): ("called on the freshly parsed dict inside the cached loader, before it is returned", ("item-store",)),
+    (_C + "removed.py::validate_config_dict_for_removed", "config"): ("called on the freshly parsed / merged dict before it is used (C27 R27c checks that no cached dict gets here)", ("item-del",)),
 }
 
 ARG_SCOPES = ("src/sqlfluff/core/linter/", "src/sqlfluff/core/rules/", "src/sqlfluff/core/config/")
@@ -367,6 +374,7 @@ def _r32a(chk) -> None:
         chk.count("R32a.entry_points")
         chk.count(f"R32a.reachable_from[{_short_entry(rel, q)}]", len(first))
         n_plain = sum(1 for fq in forbidden if fq in plain)
+        chk.count("R32a.writers_reachable_ignoring_flags", n_plain)
         for fq, cons in sorted(forbidden.items()):
             hit = fq in first
             if fq in plain and not hit:
@@ -389,8 +397,8 @@ def _r32a(chk) -> None:
                 if fq2 and fq2 in first and not q2.startswith("LintingResult."):
                     chk.fail("R32a", root.node, f"output-artefact writer {cons} is reachable from the library entry point {q}", detail=f"{q} reaches artefact writer {q2}", construct=f"{rel}::{q}")
     chk.count("R32a.paths_decided_by_flags", flag_decided)
-    # anchor: the guarded persist call exists, i.e. it is the flag analysis that decides
-    chk.floor("R32a.paths_decided_by_flags", 1)
+    # anchor: a writer is reachable when flags are ignored, i.e. it is the flag analysis that decides
+    chk.floor("R32a.writers_reachable_ignoring_flags", 1)
     chk.floor("R32a.entry_points", len(ENTRIES))
     chk.floor("R32a.reachable_from[cli.lint]", 100)
     chk.floor("R32a.reachable_from[Linter.lint_paths]", 100)
@@ -496,44 +504,52 @@ def _bound_names(f) -> set:
 # ---------------------------------------------------------------------------
 
 
+def _path_text(param: str, path: List[str]) -> str:
+    out = param
+    for p in path:
+        out += "[*]" if p == "[*]" else ("[]" if p == "[]" else f".{p}")
+    return out
+
+
 def param_roots(f: ast.AST, recv: ast.AST, node: ast.AST) -> List[Tuple[str, str]]:
-    """Parameters of ``f`` the mutated object ``recv`` is reached from:
-    ('p', 'direct') for ``p...`` / a plain alias, ('p', 'element') for an element
-    obtained by iterating over something reached from ``p``."""
+    """Parameters of ``f`` the mutated object ``recv`` is reached from, with the access
+    path: ('p', 'p.a') for ``p.a`` / a plain alias of it, ('p', 'p.a[*]') for an element
+    obtained by iterating over ``p.a``."""
     root, path = chain_of(recv)
     if not isinstance(root, ast.Name):
         return []
-    params = set(_param_names(f))
     skip = set()
     if f.args.args and f.args.args[0].arg in ("self", "cls") and isinstance(getattr(f, "_parent", None), ast.ClassDef):
         skip.add(f.args.args[0].arg)
     cfg = cfg_of(f)
     st = node if isinstance(node, ast.stmt) else cfg.stmt_of(node)
     out: List[Tuple[str, str]] = []
+
+    def params_of_name(nm: ast.Name, at) -> List[str]:
+        return [o.expr.arg for o in origins(cfg, nm, at) if o.kind == "param" and not o.path and o.expr.arg not in skip]
+
     try:
         os_ = origins(cfg, root, st)
     except Exception:  # pragma: no cover
         return []
     for o in os_:
         if o.kind == "param":
-            if o.expr.arg in params and o.expr.arg not in skip and not o.path:
-                out.append((o.expr.arg, "direct"))
+            if o.expr.arg not in skip and not o.path:
+                out.append((o.expr.arg, _path_text(o.expr.arg, path)))
         elif o.kind == "for":
             it = o.expr
             while isinstance(it, ast.Call) and isinstance(it.func, ast.Name) and it.func.id in ("enumerate", "reversed", "sorted", "list", "tuple", "iter", "zip") and it.args:
                 it = it.args[0]
-            r2, _ = chain_of(it)
+            r2, p2 = chain_of(it)
             if isinstance(r2, ast.Name):
-                for o2 in origins(cfg, r2, o.stmt):
-                    if o2.kind == "param" and o2.expr.arg not in skip and not o2.path:
-                        out.append((o2.expr.arg, "element"))
-        elif o.kind == "expr" and isinstance(o.expr, (ast.Attribute, ast.Subscript)):
+                for p in params_of_name(r2, o.stmt):
+                    out.append((p, _path_text(p, p2 + ["[*]"] + path)))
+        elif o.kind == "expr" and isinstance(o.expr, (ast.Attribute, ast.Subscript)) and not o.path:
             # alias of something reached from a parameter: x = p.attr ; x.append(..)
-            r2, _ = chain_of(o.expr)
+            r2, p2 = chain_of(o.expr)
             if isinstance(r2, ast.Name) and r2.id != root.id:
-                for o2 in origins(cfg, r2, o.stmt):
-                    if o2.kind == "param" and o2.expr.arg not in skip and not o2.path:
-                        out.append((o2.expr.arg, "direct"))
+                for p in params_of_name(r2, o.stmt):
+                    out.append((p, _path_text(p, p2 + path)))
     return sorted(set(out))
 
 
@@ -576,28 +592,31 @@ def _r32c(chk) -> None:
                 for sh in mutation_shapes(f):
                     if sh.how in ("global-rebind", "global-del", "next()"):
                         continue
-                    for p, kind in param_roots(f, sh.recv, sh.node):
+                    for p, path in param_roots(f, sh.recv, sh.node):
                         if sh.how == "augassign" and not _augassign_in_place(f, sh):
                             continue  # x += v rebinds the local unless x is a list / dict / set
                         n_sites += 1
-                        row = REVIEWED_ARG_MUTATIONS.get((cons, p))
-                        if row is not None:
-                            seen_rows.add((cons, p))
+                        how = sh.how.split(" via ")[0]
+                        row = REVIEWED_ARG_MUTATIONS.get((cons, path))
+                        ok = row is not None and how in row[1]
+                        if ok:
+                            seen_rows.add((cons, path))
                         chk.require(
-                            row is not None, "R32c", sh.node,
-                            f"{q} mutates an object owned by its caller (parameter '{p}'{' — an element of it' if kind == 'element' else ''}: {short(sh.node, 70)}); "
-                            f"on the lint path the caller's object may be shared between files (rule pack, reference map, config), so the change is visible to the next file",
-                            detail=f"mutates parameter {p}: {sh.how.split(' via ')[0]}", construct=cons,
+                            ok, "R32c", sh.node,
+                            f"{q} mutates an object owned by its caller ({path}: {short(sh.node, 70)})"
+                            + (f" in a way the review of this parameter does not cover (reviewed: {', '.join(row[1])})" if row is not None else "")
+                            + "; on the lint path the caller's object may be shared between files or passes (rule pack, reference map, config, parsed file), so the change is visible to whatever uses it next",
+                            detail=f"mutates {path}: {how}", construct=cons,
                         )
-                        if row is not None and len(chk.samples) < 18:
-                            chk.sample({"rule": "R32c", "site": f"{m.relpath}:{sh.node.lineno}", "function": q, "param": p, "how": sh.how, "reviewed": row[:60]}, limit=18)
+                        if ok and len(chk.samples) < 18:
+                            chk.sample({"rule": "R32c", "site": f"{m.relpath}:{sh.node.lineno}", "function": q, "object": path, "how": how, "reviewed": row[0][:60]}, limit=18)
     chk.count("R32c.functions_scanned", n_fn)
     chk.count("R32c.argument_mutation_sites", n_sites)
     chk.floor("R32c.functions_scanned", 150)
     chk.floor("R32c.argument_mutation_sites", 10)
     for row in REVIEWED_ARG_MUTATIONS:
         if row not in seen_rows:
-            chk.note(f"R32c: reviewed row without a site (stale, harmless): {row[0].split('::')[1]}({row[1]})")
+            chk.note(f"R32c: reviewed row without a site (stale, harmless): {row[0].split('::')[1]} / {row[1]}")
 
 
 def run(chk) -> None:
@@ -656,13 +675,13 @@ VARIANTS: List[Variant] = [
         "apply-fixes-defaults-to-true", LINTER,
         "        apply_fixes: bool = False,\n",
         "        apply_fixes: bool = True,\n",
-        "R32a", "persist_tree", "`sqlfluff lint` does not pass the flag: it would rewrite the files it lints",
+        "R32a", "_safe_create_replace_file", "`sqlfluff lint` does not pass the flag: it would rewrite the files it lints",
     ),
     Variant(
         "persist-gate-dropped", LINTER,
         "                if apply_fixes:\n                    num_tmp_prs_errors",
         "                if True:\n                    num_tmp_prs_errors",
-        "R32a", "persist_tree",
+        "R32a", "_safe_create_replace_file",
     ),
     Variant(
         "lint-command-persists-result", CLI,
@@ -736,6 +755,6 @@ VARIANTS: List[Variant] = [
         "ref-map-keys-dropped-for-noqa", LINTER,
         "        # Return a new map with only the excluded rules\n",
         "        for k in [k for k, v in output_map.items() if not v & noqa_set]:\n            del reference_map[k]\n        # Return a new map with only the excluded rules\n",
-        "R32c", "allowed_rule_ref_map", "reviewed (function, parameter) row, but ... a delete: still the reviewed row -> must be caught by how",
+        "R32c", "allowed_rule_ref_map", "a different operation on a reviewed parameter: keys vanish from the pack's reference map for every later use of the pack",
     ),
 ]
